@@ -265,3 +265,91 @@ def run_line(inp):
             import ledger.pin as lp
             if "open" in lp.__dict__:
                 del lp.__dict__["open"]
+
+
+class _FakeTCPServer:
+    """stands for socketserver.TCPServer: reaching serve_forever is the observation 'served'"""
+    allow_reuse_address = True
+    served = []
+
+    def __init__(self, addr, handler):
+        pass
+
+    def serve_forever(self):
+        _FakeTCPServer.served.append(True)
+
+    def server_close(self):
+        pass
+
+    def shutdown(self):
+        pass
+
+
+def run_bringup(inp):
+    """the real TCPServer.run() (initialize_device + exception map) up to serve_forever"""
+    from comm.platform import Platform
+    import comm.server as cs
+    from ledger.protocol import HSM2ProtocolLedger
+    from ledger.protocol_v1 import HSM1ProtocolLedger
+    plat = inp.get("platform", "ledger")
+    Platform.set({"ledger": Platform.LEDGER, "sgx": Platform.SGX, "tcp": Platform.X86}[plat])
+    simdev.install()
+    devspec = dict(inp["dev"])
+    devspec["sgx"] = plat == "sgx"
+    dev = build_device(devspec)
+    st0 = dev.s
+    truth = None
+    if not dev.p.faults:
+        truth = {"onboarded": st0.onboarded, "mode": st0.mode, "ui_version": list(st0.ui_version),
+                 "app_version": list(st0.app_version), "retries": st0.retries, "echo_ok": bool(st0.echo_ok),
+                 "unlock_ok": bool(st0.unlock_ok), "after_exit_mode": st0.after_exit_mode,
+                 "has_pin": inp.get("pin") is not None, "network": st0.network}
+    simdev.reset([], inp.get("conns", []), dev.exchange)
+    if plat == "sgx":
+        from sgx.hsm2dongle import HSM2DongleSGX
+        dongle = HSM2DongleSGX("sim", 0, False)
+    elif plat == "tcp":
+        from ledger.hsm2dongle_tcp import HSM2DongleTCP
+        dongle = HSM2DongleTCP("sim", 0, False)
+    else:
+        from ledger.hsm2dongle import HSM2Dongle
+        dongle = HSM2Dongle(False)
+    pin, pindir = None, None
+    if inp.get("pin") is not None:
+        pin, pindir = make_pin(inp["pin"], inp.get("gen_pins", []), inp.get("fs_ok", []))
+    try:
+        proto = (HSM1ProtocolLedger if inp.get("mode") == "v1" else HSM2ProtocolLedger)(pin, dongle)
+
+        class _SS:
+            TCPServer = _FakeTCPServer
+        real_ss = cs.socketserver
+        cs.socketserver = _SS
+        _FakeTCPServer.served = []
+        try:
+            try:
+                cs.TCPServer("localhost", 0, proto).run()
+                outcome = "served" if _FakeTCPServer.served else "interrupted"
+            except cs.TCPServerError:
+                outcome = "error"
+            except BaseException as e:
+                n = type(e).__name__
+                outcome = "crash:" + (n if n in EXC_NAMES else "UNMAPPED:" + n)
+        finally:
+            cs.socketserver = real_ss
+        out = {"events": list(simdev.CTX.events), "outcome": outcome,
+               "pin": pin.get_pin().hex() if pin is not None else None}
+        minp = {"platform": plat, "script": [simdev.norm_entry(e) for e in simdev.CTX.recorded],
+                "conns": list(inp.get("conns", []))}
+        if truth is not None:
+            minp["truth"] = truth
+        if inp.get("pin") is not None:
+            minp["pin"] = inp["pin"]
+            minp["gen_pins"] = inp.get("gen_pins", [])
+            minp["fs_ok"] = inp.get("fs_ok", [])
+        return {"__model_input__": minp, "out": out}
+    finally:
+        if pindir:
+            shutil.rmtree(pindir, ignore_errors=True)
+            import ledger.pin as lp
+            if "open" in lp.__dict__:
+                del lp.__dict__["open"]
